@@ -822,7 +822,13 @@ func dxGenBGP(t *rapid.T, label string, o dxGenOpts) dxAttrs {
 		a.Comms = []uint32{0xfde80001, 0xfde80002}
 	}
 	if rapid.IntRange(0, 3).Draw(t, label+"_otc") == 0 {
-		a.OTC = rapid.SampledFrom([]uint32{peer.ASN, 64700}).Draw(t, label+"_otcv")
+		// OTC carries the AS that set it at an AS boundary: a neighbour AS, never the
+		// local AS (such a route has left and re-entered the local AS: AS loop, hidden on import)
+		otcs := []uint32{64601, 64700}
+		if peer.EBGP {
+			otcs[0] = peer.ASN
+		}
+		a.OTC = rapid.SampledFrom(otcs).Draw(t, label+"_otcv")
 	}
 	if o.Extras {
 		dxGenExtras(t, label, &a)
